@@ -51,19 +51,26 @@ theorem parseNextValue_quoted (s tail : Str) :
 
 /-! ### unquoted argument -/
 
-/-- characters of an argument that may be written without quotes -/
-def UnqChar (c : Char) : Prop := isWs c = false ∧ c ≠ '#'
+/-- characters of an argument that may be written without quotes: only the space character and
+    `#` end an unquoted token (tab, CR, LF, `\` and `"` are written escaped; any other character,
+    white space such as U+00A0 included, is written raw and accumulated by the scanner) -/
+def UnqChar (c : Char) : Prop := c ≠ ' ' ∧ c ≠ '#'
 
 theorem pvLoop_unquoted_char (c : Char) (acc l : Str) (h : UnqChar c) :
     pvLoop (argFlags false) { arg := acc, inArg := true } (escChar c ++ l) =
       pvLoop (argFlags false) { arg := acc ++ [c], inArg := true } l := by
-  obtain ⟨hws, hh⟩ := h
-  obtain ⟨w1, w2, w3, w4⟩ := isWs_false_ne hws
+  obtain ⟨w1, hh⟩ := h
   by_cases h1 : c = '\\'
   · subst h1; simp [escChar, pvLoop, pvStep, argFlags]
   by_cases h2 : c = '"'
   · subst h2; simp [escChar, pvLoop, pvStep, argFlags]
-  simp [escChar, pvLoop, pvStep, argFlags, h1, h2, w1, w2, w3, w4, hh]
+  by_cases h3 : c = '\n'
+  · subst h3; simp [escChar, pvLoop, pvStep, argFlags]
+  by_cases h4 : c = '\r'
+  · subst h4; simp [escChar, pvLoop, pvStep, argFlags]
+  by_cases h5 : c = '\t'
+  · subst h5; simp [escChar, pvLoop, pvStep, argFlags]
+  simp [escChar, pvLoop, pvStep, argFlags, h1, h2, h3, h4, h5, w1, hh]
 
 theorem pvLoop_unquoted_body (s acc tail : Str) (h : ∀ c ∈ s, UnqChar c) :
     pvLoop (argFlags false) { arg := acc, inArg := true } (escape s ++ tail) =
@@ -78,20 +85,30 @@ theorem pvLoop_unquoted_body (s acc tail : Str) (h : ∀ c ∈ s, UnqChar c) :
 theorem pvLoop_unquoted_first (c : Char) (l : Str) (h : UnqChar c) (hq : c ≠ '"') :
     pvLoop (argFlags false) {} (escChar c ++ l) =
       pvLoop (argFlags false) { arg := [c], inArg := true } l := by
-  obtain ⟨hws, hh⟩ := h
-  obtain ⟨w1, w2, w3, w4⟩ := isWs_false_ne hws
+  obtain ⟨w1, hh⟩ := h
   by_cases h1 : c = '\\'
   · subst h1; simp [escChar, pvLoop, pvStep, argFlags]
-  simp [escChar, pvLoop, pvStep, argFlags, h1, hq, w1, w2, w3, w4, hh]
+  by_cases h3 : c = '\n'
+  · subst h3; simp [escChar, pvLoop, pvStep, argFlags]
+  by_cases h4 : c = '\r'
+  · subst h4; simp [escChar, pvLoop, pvStep, argFlags]
+  by_cases h5 : c = '\t'
+  · subst h5; simp [escChar, pvLoop, pvStep, argFlags]
+  simp [escChar, pvLoop, pvStep, argFlags, h1, hq, h3, h4, h5, w1, hh]
 
+/-- `canUnquote` unfolded: non-empty, no space and no `#` anywhere, first and last character not
+    white space (the line is trimmed), first character neither `"` nor `=` -/
 theorem canUnquote_iff (s : Str) :
     canUnquote s = true ↔
-      s ≠ [] ∧ (∀ c ∈ s, UnqChar c) ∧ s.head? ≠ some '"' ∧ s.head? ≠ some '=' := by
-  simp [canUnquote, UnqChar, and_assoc]
+      s ≠ [] ∧ (∀ c ∈ s, UnqChar c) ∧ (∀ c, s.head? = some c → isWs c = false) ∧
+        (∀ c, s.getLast? = some c → isWs c = false) ∧
+        s.head? ≠ some '"' ∧ s.head? ≠ some '=' := by
+  cases hh : s.head? <;> cases hl : s.getLast? <;>
+    simp [canUnquote, UnqChar, and_assoc, hh, hl]
 
 theorem parseNextValue_unquoted (s tail : Str) (h : canUnquote s = true) (hb : Bnd false tail) :
     parseNextValue (argFlags false) (escape s ++ tail) = .ok (afterTok tail, some s) := by
-  obtain ⟨hne, hall, hq, _⟩ := (canUnquote_iff s).mp h
+  obtain ⟨hne, hall, _, _, hq, _⟩ := (canUnquote_iff s).mp h
   cases s with
   | nil => exact absurd rfl hne
   | cons c t =>
@@ -99,6 +116,14 @@ theorem parseNextValue_unquoted (s tail : Str) (h : canUnquote s = true) (hb : B
       pvLoop_unquoted_first c _ (hall c (by simp)) (by simpa using hq),
       pvLoop_unquoted_body t [c] tail (fun x hx => hall x (by simp [hx]))]
     exact pv_finish_at_bnd (argFlags false) ([c] ++ t) tail (by simp) hb
+
+/-- an argument with an inner no-break space (U+00A0, Unicode white space but not the space
+    character) may be written without quotes … -/
+example : canUnquote ['a', '\u00a0', 'b'] = true := by decide
+
+/-- … but not one that starts or ends with it (the line is trimmed), nor one with a space -/
+example : canUnquote ['a', '\u00a0'] = false ∧ canUnquote ['\u00a0', 'a'] = false ∧
+    canUnquote ['a', ' ', 'b'] = false := by decide
 
 /-! ### one rendered argument -/
 
